@@ -1,3 +1,7 @@
 import MokapotVerif.Wire
+import MokapotVerif.OpsAll
 import MokapotVerif.Model.Qvalues
 import MokapotVerif.Ops.Qvalues
+import MokapotVerif.Lemmas.Qvalues
+import MokapotVerif.Lemmas.QvaluesSort
+import MokapotVerif.Props.C01
